@@ -103,6 +103,10 @@ def run_execution(binary, seed, idx):
         out['events'] = cl.ctl('events').get('events', [])
         out['hist'] = hist
         out['topic'] = topic
+        # last of all (an accepted probe write would pollute the segment): fencing probe at the quiescent point. Only segments sealed
+        # before the quiescent period began are probed (the monitor may still seal the open segment once after the clients stopped)
+        cl.ctl('sync')
+        out['fence'] = cl.ctl('fence_probe', topic=topic, min_age=2 if cfg['monitor'] else 1).get('probes', [])
         return out
     except Exception as e:
         out['error'] = 'execution: %r' % e
@@ -196,4 +200,11 @@ def check_events(ex):
             owner = assign.get((node, topic, seg))
             if owner is not None and owner != node:
                 F.append({'cls': 'write-to-foreign-segment', 'detail': {'node': node, 'segment': key, 'assigned_to': owner, 'write_begin_at_event': seq}})
-    return F, {'writes': writes, 'applied_rollovers': len(sealed), 'events': len(ex['events']), 'late_writes': late}
+    # quiescent-point fencing probe: no writer, proposer or lagging follower is active any more, the node has applied the sealing long ago
+    # and refreshes its leases inside the probed call itself - an accepted write has no race to hide behind
+    probes = ex.get('fence') or []
+    for p in probes:
+        if p.get('accepted'):
+            F.append({'cls': 'sealed-segment-write-accepted-at-quiescence', 'detail': {k: p.get(k) for k in ('node', 'key', 'current_segment', 'assigned_to', 'resp')}})
+    return F, {'writes': writes, 'applied_rollovers': len(sealed), 'events': len(ex['events']), 'late_writes': late, 'fence_probes': len(probes),
+               'fence_probes_rejected': sum(1 for p in probes if not p.get('accepted'))}
